@@ -15,7 +15,10 @@ CLASS_CHARS = {
     "w": " \t\n\r\x0b\x0c", "nd": "٠١٢٣٤٥٦٧٨٩０１２３４５６７８９०१२३߀", "nl": "éèüßабвαβγａｂｃｄｅｆÀÁ",
     "p": "-_:.,;/+=!?#%&*()[]{}<>|~^`'\"\\@$", "s": "\ud800􏰀\udfff", "z": "\x00",
 }
-NONSTRINGS = [None, 5, 0, 1.5, True, b"ab" * 32, bytearray(b"ab" * 32), ["ab" * 32], ("ab" * 32,), {"ab" * 32: 1}, {"ab"}, b"\xab" * 32, 64, object]
+NONSTRINGS = [None, 5, 0, 1.5, True, b"ab" * 32, bytearray(b"ab" * 32), ["ab" * 32], ("ab" * 32,), {"ab" * 32: 1}, {"ab"}, b"\xab" * 32, 64, object,
+              # containers of single hex characters, of every length a hex grammar asks for
+              list("0a"), list("0a" * 20), list("0a" * 32), list("0a" * 64), tuple("0a" * 32), dict.fromkeys("0123456789abcdef"), dict.fromkeys("04"),
+              {"%02d" % i: None for i in range(40)}, set("0a"), frozenset("0123456789abcdef"), ["0a"] * 32, b"0a" * 20, bytearray(b"0a" * 64)]
 
 
 def concrete(classes, r):
@@ -46,7 +49,10 @@ def check(run):
     pairs = [("hexstring", c.is_hex_string, c.checkformat_hex_string, twins.twin_is_hex),
              ("key", c.is_hex_key, c.checkformat_hex_key, twins.twin_is_hex_key),
              ("sig", c.is_hex_signature, None, twins.twin_is_hex_sig),
-             ("fp", c.is_gpg_fingerprint, c.checkformat_gpg_fingerprint, twins.twin_is_fingerprint)]
+             ("fp", c.is_gpg_fingerprint, c.checkformat_gpg_fingerprint, twins.twin_is_fingerprint),
+             # the key constructors are consumers of the key grammar too: a key object exists for exactly the strings the grammar accepts
+             ("key", lambda x: raises(c.PublicKey.from_hex, x) is None, c.PublicKey.from_hex, twins.twin_is_hex_key),
+             ("key", lambda x: raises(c.PrivateKey.from_hex, x) is None, c.PrivateKey.from_hex, twins.twin_is_hex_key)]
     keyA, keyB = "0a" * 32, "1b" * 32
     elems = {"A": keyA, "B": keyB, "A_upper": keyA.upper(), "A_padded": keyA + " ", "A_0x": "0x" + keyA, "nonstr": 7}
     good_sig = "0a1b" * 32
